@@ -486,10 +486,15 @@ func (root *Root) replaceArgVars(vars map[string]interface{}, v interface{}, at 
 			}
 		}
 	case Symbol:
-		bt := BaseType(at)
-		if et, _ := bt.(*Enum); et != nil {
-			if _, has := et.values.dict[string(tv)]; !has {
-				ea = append(ea, resWarnp(nil, "%s is not a valid enum value in %s", tv, et.N))
+		// Checked by the declared type and not by its base type, a symbol
+		// is not a value of a list of enums nor of a type other than an
+		// enum. The symbol is kept on failure.
+		if ic, _ := at.(InCoercer); ic != nil {
+			var cv interface{}
+			if cv, err = ic.CoerceIn(val); err != nil {
+				ea = append(ea, resWarnp(nil, "%s", err))
+			} else {
+				val = cv
 			}
 		}
 	default:
